@@ -46,6 +46,12 @@ func c19Write(c *fw.Case) {
 	rng := c.Rng
 	rows := 1 + rng.Intn(40)
 	o := model.GenOpts{Rows: rows, MinCols: 1, MaxCols: 5, NoCR: false, ID: rng.Intn(2) == 0, Names: []string{"a", "b", "c", "COL1", "x y", "é", "n1", "Sum"}, IDName: "rowid"}
+	if c.No%16 == 6 {
+		// wide frames: placeholder numbers with two digits
+		o.MinCols, o.MaxCols = 10, 14
+		o.Names = []string{"a", "b", "c", "d", "e", "f", "g", "h", "i", "j", "k", "l", "m", "n", "o"}
+		o.Rows = 1 + rng.Intn(5)
+	}
 	f := model.GenFrame(rng, o)
 	root, err := model.MakeRootFrom(rng, f, 3, false)
 	if err != nil || len(root.Shadow.Cols) == 0 || root.Shadow.Len() == 0 {
